@@ -150,6 +150,38 @@ def gen_requests(tier, rng, kinds=KINDS, endpoints=None, n_random=None, avoid_cr
                     l = req_line(variants[i % 2], kind, auth, "aaa", secret, eps[0], "https://client/cb" if i % 3 == 0 else None, a1, a2, a3, SCOPES[i % 3], extras)
                     if l:
                         out.append((l, "colliding-extras/" + kind))
+    # extension parameters that real deployments add (RFC 7521/7523 assertions, RFC 8693 token exchange, RFC 8707, RFC 9449,
+    # OpenID Connect, vendor parameters): they are extras like any other and change nothing else in the request
+    ext_names = ["client_assertion", "client_assertion_type", "assertion", "resource", "audience", "requested_token_type", "subject_token", "subject_token_type",
+                 "actor_token", "actor_token_type", "nonce", "prompt", "login_hint", "claims", "request", "request_uri", "dpop_jkt", "authorization_details",
+                 "code_challenge", "code_challenge_method", "response_type", "state", "id_token_hint", "acr_values", "max_age", "ui_locales", "tenant", "realm",
+                 "access_type", "include_granted_scopes", "private_key_jwt", "client_secret_jwt", "tls_client_auth", "none", "Authorization", "authorization", "basic"]
+    for ki, kind in enumerate(kinds):
+        eps = endpoints or (REVOKE_ENDPOINTS if kind == "revoke" else eps_default)
+        for ni, name in enumerate(ext_names):
+            for auth in ("B", "R"):
+                if tier == "quick" and (ni + ki + (auth == "B")) % 2:
+                    continue
+                i += 1
+                a1, a2, a3 = kind_args(kind, rng, STRINGS[:8])
+                l = req_line(variants[i % 2], kind, auth, "aaa", "bbb" if i % 3 else None, eps[0], None, a1, a2, a3, SCOPES[i % 3],
+                             [(name, "urn:ietf:params:oauth:client-assertion-type:jwt-bearer" if name.endswith("_type") else "eyJhbGciOiJSUzI1NiJ9.e30.c2ln")])
+                if l:
+                    out.append((l, "extension-parameter/" + kind))
+    # one blank / control character at either END of every caller string (id, secret, arguments, scope, extra): nothing is trimmed
+    for ki, kind in enumerate(kinds):
+        eps = endpoints or (REVOKE_ENDPOINTS if kind == "revoke" else eps_default)
+        for ai, aff in enumerate(["\n", "\r", "\r\n", "\t", " ", "\x00", "\u00a0", "\u3000", "\u2028", "\ufeff", "\x0b", "\x0c", "\x1f", "\x7f"]):
+            for side in (0, 1):
+                w = (lambda x: aff + x) if side == 0 else (lambda x: x + aff)
+                for auth in ("B", "R"):
+                    if tier == "quick" and (ai + ki + side + (auth == "B")) % 2 and aff not in ("\n", "\r\n", " "):
+                        continue
+                    i += 1
+                    a1, a2, a3 = kind_args(kind, rng, [w("val")])
+                    l = req_line(variants[i % 2], kind, auth, w("client"), w("secret"), eps[0], None, a1, a2, a3, [w("sc")], [(w("k"), w("v"))])
+                    if l:
+                        out.append((l, "affix/" + kind))
     # every printable ASCII character on its own, as the only special character of id / secret /
     # a value / an extra (a fast path keyed on a character class shows up only this way)
     for code in range(0x20, 0x7F):
